@@ -115,6 +115,13 @@ Definition same_reading (r1 r2 : outcome aux) : Prop :=
   | _, _ => False
   end.
 
+(* a visit stands in the document: its file exists, its line is the v_lineno-th line of that
+   file, command_re recognises it as that command with that value, v_line is its stripped text *)
+Definition stands_in (fs : str -> option str) (v : visit) : Prop :=
+  exists content l, fs (v_file v) = Some content /\
+    nth_error (lines_of content) (pred (v_lineno v)) = Some l /\ 1 <= v_lineno v /\
+    match_command l = Some (v_cmd v, v_val v) /\ v_line v = strip l /\ v_cmd v <> CInput.
+
 (* universal newlines: \r\n and \r read as \n (after_cr = the previous character was \r) *)
 Local Open Scope N_scope.
 Fixpoint translate_nl (s : str) (after_cr : bool) : str :=
